@@ -437,7 +437,8 @@ class ABCTune(object):
       raise ABCParseError(
           'Cannot apply broken rhythm to two notes of different lengths')
 
-    time_adj = note1_len / (2 ** len(broken_rhythm))
+    # a>b: a is dotted and b halved; a>>b: a is double dotted and b quartered; etc.
+    time_adj = note1_len - note1_len / (2 ** len(broken_rhythm))
     if broken_rhythm[0] == '<':
       note1.end_time -= time_adj
       note2.start_time -= time_adj
